@@ -95,6 +95,9 @@ class NormBased:
         q1 = 2*res1@dres1
         if q0 >= 0:
             raise SolverError('search vector does not reduce residual')
+        if not all(abs(v) < 1e150 for v in (p0, q0, p1, q1)): # squares would overflow; also catches non-finite norms of finite residuals
+            log.info('residual norm out of range')
+            return self.minscale, False
         c = math.fsum([-3*p0, 3*p1, -2*q0, -q1])
         d = math.fsum([2*p0, -2*p1, q0, q1])
         # To minimize P we need to determine the roots for P'(x) = q0 + 2 c x + 3 d x^2
